@@ -12,6 +12,8 @@ CONSTANTS
   NoEvent = {3, 6, 9, 12}
   Big = {2, 11}
   SlotRep <- MCSlotRep3
+  OCells = {0, 1}
+  OKeys = {1, 2}
   Forms = {"direct", "shift", "fn", "reput", "peek", "noabort"}
   RefIds = {1, 2, 3}
   BorrowTys = {"N", "R", "Q"}
